@@ -263,6 +263,20 @@ func scenarios() []vrt.Scenario {
 			w.s.Spawn("closer", false, func() { w.unsubscribeBy(a, scope.Close) })
 			w.s.Spawn("unsubA", false, func() { w.unsubscribe(a, tracked) })
 		}),
+		mk("S10-scope-close-races-unsubscribe-then-send-buffered", func(w *world) {
+			// like S5 but the tracked subscriber is buffered, so a Send that starts after the tracked
+			// Unsubscribe returned would visibly deliver if the subscription were still live
+			a, b := w.newSub("A", 1), w.newSub("B", 1)
+			var scope event.SubscriptionScope
+			w.subscribe(a)
+			w.subscribe(b)
+			tracked := scope.Track(a.sub)
+			w.s.Spawn("closer", false, func() { w.unsubscribeBy(a, scope.Close) })
+			w.s.Spawn("unsubA-then-send", false, func() {
+				w.unsubscribe(a, tracked)
+				w.send(1)
+			})
+		}),
 		mk("S6-self-unsubscribe-after-first-value", func(w *world) {
 			a, b := w.newSub("A", 0), w.newSub("B", 2)
 			w.subscribe(a)
